@@ -38,11 +38,11 @@ def reviewed : List (String × Use) := [
   ("config.getPackages#2:lookup|append:pkgs", .trustedLoad),
   ("config.parseMethods#1:rawConverter.Methods|append:names,sorted", .sortedAfter),
   ("enum.transformRegex#1:ctx.Source.Members|insert", .setInsert),
-  ("generator.fileManager.renderFiles#1:m.Files|insert+return", .setInsert),
+  ("generator.fileManager.renderFiles#1:m.Files|append:names,sorted", .sortedAfter),   -- D38: was a direct range with an early return
   ("generator.generator.addContext#1:g.callers[check.Definition]|cond-call:g.addContext+setflag:Dirty=true", .commutingUpdates),
   ("generator.generator.markCallersDirty#1:g.callers[def]|setflag:Dirty=true", .commutingUpdates),
   ("generator.validateMethods#1:lookup.Exact|append:genMethods,sorted", .sortedAfter),
-  ("goverter.writeFiles#1:files|return", .perEntryIO),
+  ("goverter.writeFiles#1:files|append:paths,sorted", .sortedAfter),   -- D38: was a direct range with an early return
   ("method.AvailableContextDebug#1:required|append:lines,sorted+insert", .sortedAfter),
   ("method.Index.GetAll#1:l.Exact|append:items", .sortedByCaller),
   ("method.satisfiesContext#1:required|return-false", .quantifier),
